@@ -885,6 +885,44 @@ func (w *hWorld) structural(orig *hFileSet) {
 			dm, _ := deact[0].(map[string]interface{})
 			um["didSuffix"] = dm["didSuffix"]
 		}},
+		{"retargeted-suffix", len(w.baseline) > 1 && w.nRecover+w.nUpdate+w.nDeact > 0, func() {
+			// one operation reference is given the DID suffix of ANOTHER operation of the batch (its own reveal value,
+			// proof and delta stay): counts agree everywhere, the suffix appears twice
+			type ref struct {
+				m map[string]interface{}
+			}
+
+			var refs []ref
+
+			for _, path := range [][]string{{"operations", "recover"}, {"operations", "deactivate"}} {
+				for _, e := range list(fs.core, path...) {
+					if em, ok := e.(map[string]interface{}); ok {
+						refs = append(refs, ref{em})
+					}
+				}
+			}
+
+			if fs.provIndex != nil {
+				for _, e := range list(fs.provIndex, "operations", "update") {
+					if em, ok := e.(map[string]interface{}); ok {
+						refs = append(refs, ref{em})
+					}
+				}
+			}
+
+			victim := refs[T.Draw(len(refs), "retarget.victim")].m
+			own, _ := victim["didSuffix"].(string)
+
+			var others []string
+
+			for _, b := range w.baseline {
+				if b.UniqueSuffix != own {
+					others = append(others, b.UniqueSuffix)
+				}
+			}
+
+			victim["didSuffix"] = others[T.Draw(len(others), "retarget.to")]
+		}},
 		{"count-too-high", true, func() { fs.count++ }},
 		{"count-too-low", orig.count > 1, func() { fs.count-- }},
 		{"invalid-delta-in-chunk", fs.ch != nil && len(list(fs.ch, "deltas")) > 0, func() {
